@@ -782,6 +782,7 @@ func (fr *Frame) functionalElem(st *State, q *PtrV, t types.Type) Value {
 	}
 	o := v.newObject(q.Obj.Name+"[row]", t, q.Obj.Entry)
 	o.UFrom = root
+	o.URowOf, o.URowIdx, o.UVer = q.Obj, idx, u.Ver
 	ln, cp := F.Select(u.Lens[0], idx), F.Select(u.Caps[0], idx)
 	if len(u.Lens) == 1 {
 		// the rows are slices of scalars: a modelled array
